@@ -1,4 +1,5 @@
 import OpcuaVerif.Model.C06
+import OpcuaVerif.Generated.ConvertTable
 
 /-!
 C06 — Implicit Variant conversion never changes a numeric value; explicit casts to integer types
@@ -489,6 +490,45 @@ theorem convert_float_source (s d : NT) (x : Fl) (hs : s.isFloat = true) :
   revert hs
   cases s <;> cases d <;> simp [convert, convertWith, convertKind, applyCK, NT.isFloat]
 
+
+/-! ### The hand-written tables are the match arms of the source (translator T3)
+
+`tools/translate/convert_table.py` parses `Variant::convert`, `Variant::cast`, `cast_to_integer!`,
+`cast_to_bool!` and the rounding lines of lib/src/types/variant.rs into
+`Generated/ConvertTable.lean` on every run; these theorems stop checking when an arm, a guard, the
+rounding or the range test of the source changes. -/
+
+def ntCode : NT → Nat
+  | .boolean => 0 | .sbyte => 1 | .byte => 2 | .int16 => 3 | .uint16 => 4 | .int32 => 5
+  | .uint32 => 6 | .int64 => 7 | .uint64 => 8 | .float => 9 | .double => 10
+
+def ckCode : CK → Nat
+  | .none => 0 | .wrap => 1 | .guardNeg => 2 | .checked => 3 | .toFloat => 4 | .fwiden => 5
+
+def xkCode : XK → Nat
+  | .none => 0 | .toBool => 1 | .toInt => 2 | .narrow => 3
+
+def modelConvertArms : List (Nat × Nat × Nat) :=
+  NT.all.flatMap fun s => NT.all.filterMap fun d =>
+    if convertKind s d = .none then none else some (ntCode s, ntCode d, ckCode (convertKind s d))
+
+def modelCastArms : List (Nat × Nat × Nat) :=
+  NT.all.flatMap fun s => NT.all.filterMap fun d =>
+    if castKind s d = .none then none else some (ntCode s, ntCode d, xkCode (castKind s d))
+
+theorem generated_convert_arms : Generated.ConvertTable.convertArms = modelConvertArms := by decide
+
+theorem generated_cast_arms : Generated.ConvertTable.castArms = modelCastArms := by decide
+
+/-- the text of the two macros and of the rounding lines that `castIntToInt`, `castFloatToInt`,
+`castToBool` and `flRound` were written from -/
+theorem generated_cast_macros :
+    Generated.ConvertTable.rounding = [(9, "f32::round(v)"), (10, "f64::round(v)")] ∧
+    Generated.ConvertTable.castToIntegerMacro =
+      "($value: expr, $from: ident, $to: ident) => { { let valid = if $value < 0 as $from { $to::MIN != 0 && $value as i128 >= $to::MIN as i128 } else { $value >= 0 as $from && $value as u128 <= $to::MAX as u128 }; if !valid { Variant::Empty } else { ($value as $to).into() } } }" ∧
+    Generated.ConvertTable.castToBoolMacro =
+      "($value: expr) => { if $value == 1 { true.into() } else if $value == 0 { false.into() } else { Variant::Empty } };" :=
+  ⟨by decide, rfl, rfl⟩
 
 /-! ### Non-vacuity: concrete instances of the hypotheses and of both outcomes -/
 
